@@ -442,6 +442,18 @@ for mac in ('ascent', 'ascent_par'):
     P('inc_pasted_' + sfx, [], [], macro=mac, body=['pub struct P;', 'relation category(i32, i32);', 'relation item(i32, i32);', 'relation cheapest(i32, i32);', 'relation total(i32, i32);',
       'cheapest(c, m) <-- category(c, shelf), agg m = min(p) in item(c, p);', 'total(c, s) <-- category(c, _), agg s = sum(p) in item(c, p), if s > 0;',
       'relation out(i32);', 'out(m) <-- cheapest(_, m);'], tags=['twin'])
+SRC4 = 'ascent::ascent_source! { %s:\n      relation edge(i32, i32, i32);\n      lattice dist(i32, i32, i32);\n      dist(x, y, *w) <-- edge(x, y, w);\n      relation not3(i32, i32);\n      relation n3(i32, usize);\n      not3(x, y) <-- edge(x, y, _), !dist(x, y, 3);\n      n3(x, c) <-- edge(x, _, w), agg c = count() in dist(x, _, w);\n   }'
+nm = 'src4_lat'
+P('inc_lat', [], [], macro='ascent', pre=SRC4 % nm, body=['pub struct P;', 'include_source!(%s);' % nm], tags=['twin'], twin=('inc_pasted_lat', 'C'))
+P('inc_pasted_lat', [], [], macro='ascent', body=['pub struct P;', 'relation edge(i32, i32, i32);', 'lattice dist(i32, i32, i32);', 'dist(x, y, *w) <-- edge(x, y, w);',
+  'relation not3(i32, i32);', 'relation n3(i32, usize);', 'not3(x, y) <-- edge(x, y, _), !dist(x, y, 3);', 'n3(x, c) <-- edge(x, _, w), agg c = count() in dist(x, _, w);'], tags=['twin'])
+# captured locals named like locals of the generated code
+P('run_names', ['relation a(i32)', 'relation b(i32)', 'relation c(i32)', 'relation out(i32)'],
+  ['a(*v) <-- for v in input.iter()', 'b(x) <-- a(x)', 'c(x) <-- a(x)', 'out(x) <-- a(x), b(x), c(x), if any_rel_empty', 'out(x + cl1_val) <-- a(x), b(x)'],
+  macro='ascent_run', params='input: &[i32], any_rel_empty: bool, cl1_val: i32', tags=['run', 'free_ident'])
+P('run_names2', ['relation a(i32)', 'relation b(i32)', 'relation c(i32)', 'relation out(i32)'],
+  ['a(*v) <-- for v in input.iter()', 'b(x) <-- a(x)', 'c(x) <-- a(x)', 'out(x + before_rule) <-- a(x), b(x), c(y), if x < y'],
+  macro='ascent_run', params='input: &[i32], before_rule: i32', attrs=['measure_rule_times'], tags=['run', 'free_ident'], crate='corpus_run2')
 # ---- S-level: permutations / renamings (both sides are translation-validated; their specs are equal as sets)
 both('t_perm_rules', [E2, 'relation path(i32, i32)'], ['path(x, z) <-- edge(x, y), path(y, z)', 'path(x, y) <-- edge(x, y)'],
      tags=['twin'], twin=('tc_lin', 'L'))
